@@ -578,7 +578,7 @@ class Interp(ExprMixin):
         fr.try_depth = saved.try_depth
         self.frame = fr
         self.depth = getattr(self, "depth", 0) + 1
-        if self.depth > 40:
+        if self.depth > getattr(self, "max_depth", 40):
             raise Unsupported("inline recursion too deep")
         try:
             self.exec_block(fnode.body)
